@@ -17,7 +17,7 @@ DIRS = ["r", "d1", "d2", "d3", "d4"]
 
 
 def mkcase(kinds, start, start_kind="abs", cwd=0, name="tasks", distractor=True, side="none", root="none",
-           link=None):
+           link=None, session=None):
     """link = None | ["file", L] (the module at level L is a symlink to a file elsewhere) |
     ["pkg", L] (the package directory at level L is a symlink) | ["dir", L] (the level-L directory
     itself, L >= 1, is a symlink to a directory elsewhere; deeper levels live behind it)"""
@@ -25,6 +25,10 @@ def mkcase(kinds, start, start_kind="abs", cwd=0, name="tasks", distractor=True,
          "name": ROOT_NAME if root != "none" else name, "distractor": distractor, "side": side, "root": root}
     if link is not None:
         c["link"] = list(link)
+    if session:
+        # earlier uses of the SAME loader object, each after a chdir to the level-`at` directory:
+        # [["load", at] | ["start", at], ...]; the judged load comes last
+        c["session"] = [list(st) for st in session]
     return c
 
 
@@ -59,7 +63,9 @@ class C20(Prop):
             "a module, a package, both or neither for the collection name, a distractor module of the other name, "
             "an optional sibling directory with its own candidate, and (rarely) a uniquely named candidate in '/'; "
             "every start level incl. the sibling; start given absolute, absolute with trailing slash, or relative "
-            "to a cwd above it; two collection names.  non-trivial = some candidate exists on disk; "
+            "to a cwd above it; two collection names; sessions: ONE loader object (default or given start) used "
+            "in a sequence of (chdir, load | read .start) steps before the judged load, every step compared with "
+            "the model.  non-trivial = some candidate exists on disk; "
             "distinct by the whole case")
     trusted_base = [
         "Coq 8.16.1 kernel + vm_compute (shard evaluation)",
@@ -135,7 +141,15 @@ class C20(Prop):
                         if link_applicable(kinds, m, lv)]
                 if opts:
                     link = list(rng.choice(opts))
-            c = mkcase(kinds, start, sk, cwd, rng.choice(NAMES), rng.random() < 0.7, side, root, link)
+            session = None
+            if rng.random() < 0.15 and not (link and link[0] == "dir"):
+                if rng.random() < 0.8:
+                    sk = "cwdnone"
+                elif sk not in ("abs", "cwdnone"):
+                    sk = "abs"
+                session = [[rng.choice(["load", "load", "start"]), rng.randrange(depth)]
+                           for _ in range(rng.choice([1, 1, 2, 3]))]
+            c = mkcase(kinds, start, sk, cwd, rng.choice(NAMES), rng.random() < 0.7, side, root, link, session)
             yield with_opts(c, start_in=(sk != "rel" and start != "side" and rng.random() < 0.15),
                             name_cfg=rng.random() < 0.15)
 
@@ -152,6 +166,7 @@ class C20(Prop):
                     for lv in range(3):
                         if link_applicable(kinds, mode, lv):
                             yield mkcase(kinds, 2, link=[mode, lv], distractor=False)
+            yield from self._sessions(("none", "mod"), ("load", "start"))
             return
         # depth 4: every layout x every start level, absolute start
         for kinds in itertools.product(KINDS, repeat=5):
@@ -196,6 +211,26 @@ class C20(Prop):
             for root in ("mod", "pkg"):
                 for start in (0, 1):
                     yield mkcase(kinds, start, root=root)
+        yield from self._sessions(("none", "mod", "pkg"), ("load", "start"))
+        # two earlier steps, and a given start (must be unaffected by where the process stands)
+        for kinds in itertools.product(("none", "mod"), repeat=3):
+            for start in range(3):
+                for a in range(3):
+                    for b in range(3):
+                        yield mkcase(kinds, start, "cwdnone", distractor=False,
+                                     session=[["load", a], ["start", b]])
+                    yield mkcase(kinds, start, "abs", distractor=False, session=[["load", a], ["load", start]])
+
+    @staticmethod
+    def _sessions(kindset, ops):
+        """one loader with the default start: one earlier step in another directory, then the judged load"""
+        for kinds in itertools.product(kindset, repeat=3):
+            for start in range(3):
+                for at in range(3):
+                    if at == start:
+                        continue
+                    for op in ops:
+                        yield mkcase(kinds, start, "cwdnone", distractor=False, session=[[op, at]])
 
     # ---------------------------------------------------------------- the world
     def _level_dir(self, i):
@@ -271,6 +306,14 @@ class C20(Prop):
             return os.path.join(d, case["name"])
         return d
 
+    def _session(self, case):
+        """the earlier steps actually exercised: only with an absolute or default start, only through
+        directories whose path goes through no symlink (os.getcwd() is physical), only existing levels"""
+        link = case.get("link")
+        if not case.get("session") or self._kind(case) not in ("abs", "cwdnone") or (link and link[0] == "dir"):
+            return []
+        return [(op, at) for op, at in case["session"] if 0 <= at < len(case["kinds"])]
+
     @staticmethod
     def _kind(case):
         """effective start kind: os.getcwd() is the *physical* directory, so a relative start is only
@@ -336,6 +379,13 @@ class C20(Prop):
             if d == "/":
                 break
             d = os.path.dirname(d)
+        for _op, at in self._session(case):
+            d = self._level_dir(at)
+            while (d, d) not in keys:
+                keys.append((d, d))
+                if d == "/":
+                    break
+                d = os.path.dirname(d)
         if self._kind(case) == "slash":
             keys.append((sdir + "/", sdir))
         if self._kind(case) == "rel":
@@ -370,20 +420,43 @@ class C20(Prop):
             os.chdir(cwd)
             if not hasattr(self, "_cfg"):
                 self._cfg = Config()
+            prev = []
             try:
                 cfg = self._cfg
                 if case.get("name_cfg"):
                     cfg = Config(overrides={"tasks": {"collection_name": name}})
                 given_start = None if self._kind(case) == "cwdnone" else start
                 loader = FilesystemLoader(start=given_start, config=cfg)
+                for op, at in self._session(case):
+                    os.chdir(self._level_dir(at))
+                    here = os.getcwd()
+                    if op == "start":
+                        prev.append(["start", here, str(loader.start)])
+                        continue
+                    try:
+                        m0, p0 = loader.load(None if case.get("name_cfg") else name)
+                        prev.append(["load", here, {"loaded": [m0.__file__, p0]}])
+                    except CollectionNotFound:
+                        prev.append(["load", here, {"exc": "CollectionNotFound"}])
+                    except ImportError:
+                        prev.append(["load", here, {"exc": "ImportError"}])
+                    except Exception as e:  # noqa
+                        prev.append(["load", here, {"exc": type(e).__name__}])
+                os.chdir(cwd)
                 module, parent = loader.load(None if case.get("name_cfg") else name)
                 raw = {"loaded": [module.__file__, parent]}
                 ab = {"loaded": [os.path.abspath(module.__file__), os.path.abspath(parent)]}
                 ok_content = getattr(module, "WHERE", None) == os.path.abspath(parent)
                 # the module stays registered under its name and its directory leads sys.path
                 # (what makes siblings / relative imports work, also later at task run time)
-                ok_content = ok_content and sys.modules.get(name) is module \
-                    and os.path.normpath(sys.path[0]) == os.path.normpath(os.path.dirname(module.__file__))
+                encl = os.path.normpath(os.path.dirname(module.__file__))
+                if prev:
+                    # a directory an earlier load of the same session already put on sys.path is not
+                    # moved to the front again (Loader.load only inserts what is missing)
+                    on_path = encl in [os.path.normpath(p) for p in sys.path]
+                else:
+                    on_path = os.path.normpath(sys.path[0]) == encl
+                ok_content = ok_content and sys.modules.get(name) is module and on_path
             except CollectionNotFound:
                 raw = ab = {"exc": "CollectionNotFound"}
                 ok_content = True
@@ -393,7 +466,8 @@ class C20(Prop):
             except Exception as e:  # noqa
                 raw = ab = {"exc": type(e).__name__}
                 ok_content = True
-            return {"cwd": cwd, "start": start, "fs": fs, "raw": raw, "abs": ab, "content_ok": ok_content}
+            return {"cwd": cwd, "start": start, "fs": fs, "raw": raw, "abs": ab, "content_ok": ok_content,
+                    "default_start": self._kind(case) == "cwdnone", "prev": prev}
         finally:
             os.chdir(saved_cwd)
             sys.path[:] = saved_path
@@ -419,8 +493,11 @@ class C20(Prop):
                     return "OOther"      # the file named is not the module that was executed
                 return "(OLoaded %s %s)" % (ct.s(o["loaded"][0]), ct.s(o["loaded"][1]))
             return {"CollectionNotFound": "ONotFound", "ImportError": "OImportError"}.get(o["exc"], "OOther")
-        return "(mk %s %s %s %s %s %s)" % (fsys, ct.s(obs["cwd"]), ct.s(obs["start"]), ct.s(case["name"]),
-                                           raw(obs["raw"]), ab(obs["abs"]))
+        prev = ct.lst(["(SStart %s %s)" % (ct.s(st[1]), ct.s(st[2])) if st[0] == "start"
+                       else "(SLoad %s %s)" % (ct.s(st[1]), raw(st[2])) for st in obs.get("prev", [])])
+        return "(mk %s %s %s %s %s %s %s %s)" % (fsys, ct.s(obs["cwd"]), ct.s(obs["start"]), ct.s(case["name"]),
+                                                 raw(obs["raw"]), ab(obs["abs"]),
+                                                 "true" if obs.get("default_start") else "false", prev)
 
     # --------------------------------------------------------------- reporting
     def _nearest(self, case):
@@ -446,7 +523,8 @@ class C20(Prop):
         o = obs["raw"]
         what = "loaded" if "loaded" in o else o["exc"]
         lk = ":link=" + case["link"][0] if case.get("link") else ""
-        return "%s:%s:depth=%d%s" % (case["start_kind"], what, len(case["kinds"]) - 1, lk)
+        ses = ":session=" + "+".join(st[0] for st in case["session"]) if case.get("session") else ""
+        return "%s:%s:depth=%d%s%s" % (case["start_kind"], what, len(case["kinds"]) - 1, lk, ses)
 
     def finding_of(self, case, obs):
         return None      # F-C20 / F-C20b / F-C20c are fixed (a51b5ff)
@@ -457,6 +535,14 @@ class C20(Prop):
             c = dict(case)
             del c["link"]
             yield c
+        if case.get("session"):
+            ses = case["session"]
+            c = dict(case)
+            del c["session"]
+            yield c
+            if len(ses) > 1:
+                for i in range(len(ses)):
+                    yield dict(case, session=ses[:i] + ses[i + 1:])
         if case["distractor"]:
             yield dict(case, distractor=False)
         if case["side"] != "none" and case["start"] != "side":
